@@ -116,11 +116,26 @@ impl Clone for ClockRef {
     }
 }
 
+/// A registry and the forks it lists point at each other (each fork keeps the registry to number the next
+/// fork): a run that clones a generator leaves such a cycle behind, scripts included. The registries made
+/// since the last call are emptied here, after the run that made them is over and its generators are gone.
+static RUN_REGISTRIES: Mutex<Vec<std::sync::Weak<Registry>>> = Mutex::new(Vec::new());
+pub fn release_run_registries() {
+    let regs: Vec<std::sync::Weak<Registry>> = std::mem::take(&mut *RUN_REGISTRIES.lock().unwrap_or_else(|e| e.into_inner()));
+    for r in regs {
+        if let Some(r) = r.upgrade() {
+            let forks = std::mem::take(&mut *r.forks.lock().unwrap_or_else(|e| e.into_inner()));
+            drop(forks);
+        }
+    }
+}
+
 /// Build the root clock. Returns the handle the simulator keeps and the closure for JitterRng.
 pub fn sim_clock(
     spec: Arc<ClockSpec>,
 ) -> (Arc<ClockCore>, impl Fn() -> u64 + Send + Sync + Clone + 'static) {
     let reg = Arc::new(Registry { forks: Mutex::new(Vec::new()) });
+    RUN_REGISTRIES.lock().unwrap_or_else(|e| e.into_inner()).push(Arc::downgrade(&reg));
     let core = Arc::new(ClockCore {
         spec,
         pos: AtomicU64::new(0),
